@@ -484,10 +484,15 @@ func main() {
 	only := flag.Int("only", -1, "run only the case with this index (same seed, same script)")
 	wired := flag.Bool("wired", false, "run the engines the socks/docker/elastic commands build (option parsing + newScanEngine) for --rate / --workers settings incl. rates below 1/s")
 	e2e := flag.String("e2e", "", "path of the sx binary: run the real socks/elastic/docker commands against loopback services")
+	e2ef := flag.String("e2efault", "", "path of the sx binary: the real socks/elastic/docker commands against a good, a closed, a silent and (socks) a negative peer")
 	e2ec := flag.String("e2ecancel", "", "path of the sx binary: SIGINT while a probe of the real socks/elastic/docker command is in flight against a silent peer")
 	flag.Parse()
 	if *e2ec != "" {
 		runE2ECancel(*e2ec, *outp)
+		return
+	}
+	if *e2ef != "" {
+		runE2EFault(*e2ef, *outp)
 		return
 	}
 	if *e2e != "" {
